@@ -51,7 +51,7 @@ type c16Env struct {
 	relay    *httptest.Server
 	sf       *SnowflakeProxy
 	// start mode: every poll is a new session; the handler reports its arrival (with the
-	// token figures at that moment) and waits for the driver to hand it the session script
+	// Clients figure) and waits, parked, for the driver to hand it the session script
 	start   bool
 	arrived chan string
 	next    chan *c16Sess
@@ -94,7 +94,7 @@ func (e *c16Env) handleProxy(w http.ResponseWriter, r *http.Request) {
 		clients = -999999
 	}
 	if e.start {
-		e.arrived <- fmt.Sprintf("c%dh%dp%d", tokens.count(), c16ChLen(), clients)
+		e.arrived <- strconv.Itoa(clients)
 		select {
 		case s := <-e.next:
 			e.mu.Lock()
@@ -225,26 +225,22 @@ func (e *c16Env) handleRelay(w http.ResponseWriter, r *http.Request) {
 // later waits of the process are cut short, so that a failing tree is reported quickly.
 var c16Degraded bool
 
-func c16PatienceMin(d, floor time.Duration) time.Duration {
-	if c16Degraded && d > floor {
-		return floor
+// (guards around get/ret/runSession keep their full length: cutting them would misreport a slow
+// session as a blocked one)
+func c16Patience(d time.Duration) time.Duration {
+	if c16Degraded && d > 250*time.Millisecond {
+		return 250 * time.Millisecond
 	}
 	return d
 }
 
-func c16Patience(d time.Duration) time.Duration { return c16PatienceMin(d, 250*time.Millisecond) }
-
 func c16GuardFor(d time.Duration, f func()) bool {
 	done := make(chan struct{})
 	go func() { f(); close(done) }()
-	extra := d - 3*time.Second // real timers (20 s, 5 s) are never cut
-	if extra < 0 {
-		extra = 0
-	}
 	select {
 	case <-done:
 		return true
-	case <-time.After(c16PatienceMin(d-extra, time.Second) + extra):
+	case <-time.After(d):
 		c16Degraded = true
 		return false
 	}
@@ -399,6 +395,9 @@ func (e *c16Env) startOp(o string) string {
 		case <-time.After(15 * time.Second):
 			return "!nopoll c" + strconv.FormatInt(tokens.count(), 10)
 		}
+		// the loop is parked in its poll request: the figures are stable (up to handler releases,
+		// which the preceding c/d ops have waited for)
+		smp = fmt.Sprintf("c%dh%dp%s", tokens.count(), c16ChLen(), smp)
 		e.mu.Lock()
 		e.sessions = append(e.sessions, s)
 		e.mu.Unlock()
